@@ -60,9 +60,12 @@ def element_rows(dim, system, n):
     rows = []
     i = 0
     k = 0
+    specials = single_component_rows(system)
     while len(rows) < n:
         if k % 3 == 2:
-            rows.append(zero_row(system))
+            # zero vectors, alternating with vectors that have exactly one non-zero Cartesian component
+            j = k // 3
+            rows.append(zero_row(system) if (j % 2 == 0 or not specials) else specials[(j // 2) % len(specials)])
         else:
             st = S.stored(vs[i % len(vs)], system)
             i += 1
@@ -80,6 +83,21 @@ def zero_row(system):
     if len(system) > 2:
         r.append(0.0)
     return tuple(r)
+
+
+def single_component_rows(system):
+    """vectors that are non-zero through one Cartesian component only (z, or t), where the system can store them"""
+    out = []
+    az = [0.0, 0.0] if system[0] == "xy" else [0.0, 1.5]
+    if len(system) > 1 and system[1] == "z":
+        r = az + [2.0]
+        if len(system) > 2:
+            r.append(0.0 if system[2] == "t" else -2.0)  # tau = -2 with mag = 2 gives t = 0
+        out.append(tuple(r))
+    if len(system) > 2:
+        r = az + [{"z": 0.0, "theta": 0.7, "eta": 1.0}[system[1]]] + [3.0]
+        out.append(tuple(r))
+    return out
 
 
 def cart_of(system, flavor, row):
